@@ -413,7 +413,22 @@ def rule_r4(ctx, rid="C17.R4"):
             ctx.r.violation(rid, key_of(f, None, "skip-past-end"), "skip() can move the read position past the queued bytes", f.loc(s.ast))
 
 
-RULES = [rule_r1, rule_r2, rule_r3, rule_r4]
+def rule_r5(ctx, rid="C17.R5"):
+    ctx.r.rule(rid, "prune() is not part of the server's buffer protocol: it replaces the file by a copy positioned at its end (position and remain no longer agree until the next seek) and may switch representation; no operation the server issues (append / get / skip / len / getfile / close) reaches it")
+    from ..callgraph import get_callgraph
+    p = ctx.p
+    cg = get_callgraph(p)
+    prunes = [f for q, f in p.functions.items() if f.name == "prune" and f.module.name == "buffers"]
+    ctx.r.floor(rid, len(prunes), 2, "prune methods")
+    for f in prunes:
+        callers = [s for s in cg.callers.get(f.qual, []) if s.func.name != "prune"]
+        if not callers:
+            ctx.r.ok(rid, "%s is only called by another prune()" % f.qual, f.loc())
+        for s in callers:
+            ctx.r.violation(rid, key_of(s.func, None, "prune-on-server-path::" + f.qual), "%s calls %s: after it the buffer's file is positioned at its end while remain still counts the unread bytes - get() returns nothing although len() > 0 (or the bytes are dropped when the representation switches back)" % (s.func.qual, f.qual), s.loc)
+
+
+RULES = [rule_r1, rule_r2, rule_r3, rule_r4, rule_r5]
 
 from ..selftest import M, T, V  # noqa: E402
 
